@@ -84,8 +84,9 @@ def cone(target_v: str) -> list[str]:
             continue
         seen.append(f)
         text = _strip_comments((COQ / f).read_text())
-        for m in re.finditer(r"From\s+TL\s+Require\s+(?:Import|Export)\s+(.*?)\.(?=\s|$)", text, re.S):
+        for m in re.finditer(r"(?:From\s+TL\s+)?Require\s+(?:Import\s+|Export\s+)?(.*?)\.(?=\s|$)", text, re.S):
             for mod in m.group(1).split():
+                mod = mod[3:] if mod.startswith("TL.") else mod
                 todo.append("theories/" + mod.replace(".", "/") + ".v")
     return sorted(seen)
 
@@ -93,8 +94,9 @@ def cone(target_v: str) -> list[str]:
 def direct_deps(rel_v: str) -> list[str]:
     text = _strip_comments((COQ / rel_v).read_text())
     out = []
-    for m in re.finditer(r"From\s+TL\s+Require\s+(?:Import|Export)\s+(.*?)\.(?=\s|$)", text, re.S):
+    for m in re.finditer(r"(?:From\s+TL\s+)?Require\s+(?:Import\s+|Export\s+)?(.*?)\.(?=\s|$)", text, re.S):
         for mod in m.group(1).split():
+            mod = mod[3:] if mod.startswith("TL.") else mod
             f = "theories/" + mod.replace(".", "/") + ".v"
             if (COQ / f).exists():
                 out.append(f)
